@@ -392,7 +392,7 @@ def bump_state(ast, old, date, major=False, minor=False, patch=False, tag=None, 
         known = [f for f in CAL_FIELDS if old[f] is not None]
         if not ([old[f] for f in known] > [new_cal[f] for f in known]):
             cur.update(new_cal)
-    if tag_num and not tag and cur["tag"] == "final":
+    if tag_num and (not tag or tag == "final") and cur["tag"] == "final":
         return None
     if major:
         cur["major"] += 1
